@@ -60,6 +60,9 @@ type c11Case struct {
 	Blocks []c11Block `json:"blocks"`
 	Peer   c11Peer    `json:"peer"`
 	Via    string     `json:"via"` // refresh | certgen | lib
+	// proxy style headers naming another address: the TCP peer alone decides
+	Fwd       string `json:"fwd"` // "" | xff | xreal | both
+	FwdInside bool   `json:"fwd_inside"`
 }
 
 func c11GenBlock(t *rapid.T) c11Block {
@@ -74,10 +77,15 @@ func c11Gen(t *rapid.T) c11Case {
 	for i := 0; i < n; i++ {
 		c.Blocks = append(c.Blocks, c11GenBlock(t))
 	}
-	c.Peer.Kind = rapid.SampledFrom([]string{"network", "broadcast", "below", "above", "inside", "outside", "random", "v6", "mapped", "mapped-out"}).Draw(t, "peerKind")
+	c.Peer.Kind = rapid.SampledFrom([]string{"network", "broadcast", "below", "above", "inside", "outside", "random", "v6", "mapped", "mapped-out", "loopback", "loopback"}).Draw(t, "peerKind")
 	c.Peer.Block = rapid.IntRange(0, n-1).Draw(t, "peerBlock")
 	c.Peer.Rand = rapid.Uint32().Draw(t, "peerRand")
 	c.Via = rapid.SampledFrom([]string{"refresh", "refresh", "certgen", "lib"}).Draw(t, "via")
+	c.Fwd = rapid.SampledFrom([]string{"", "", "xff", "xreal", "both"}).Draw(t, "fwd")
+	if c.Peer.Kind == "loopback" {
+		c.Fwd = rapid.SampledFrom([]string{"xff", "xreal", "both"}).Draw(t, "fwdLoop")
+	}
+	c.FwdInside = rapid.Bool().Draw(t, "fwdInside")
 	return c
 }
 
@@ -105,6 +113,8 @@ func c11PeerAddr(c c11Case) (string, uint32, bool) {
 		} else {
 			ip = c.Peer.Rand
 		}
+	case "loopback":
+		ip = 0x7f000001
 	case "v6":
 		return fmt.Sprintf("[2001:db8::%x]:4433", c.Peer.Rand&0xffff), 0, false
 	default:
@@ -130,6 +140,28 @@ func c11Canon(nets []net.IPNet) []string {
 		out = append(out, fmt.Sprintf("%d.%d.%d.%d/%d", ip4[0], ip4[1], ip4[2], ip4[3], ones))
 	}
 	return out
+}
+
+// c11Forwarded decorates the request with proxy headers naming an address
+// inside (or outside) the first block.
+func c11Forwarded(c c11Case, h interface{ Set(string, string) }) {
+	if c.Fwd == "" {
+		return
+	}
+	b := c.Blocks[0]
+	ip := b.Base | (c.Peer.Rand & ^c11Mask(b.Prefix))
+	if !c.FwdInside {
+		ip = ^ip
+	}
+	var q [4]byte
+	binary.BigEndian.PutUint32(q[:], ip)
+	v := fmt.Sprintf("%d.%d.%d.%d", q[0], q[1], q[2], q[3])
+	if c.Fwd == "xff" || c.Fwd == "both" {
+		h.Set("X-Forwarded-For", v)
+	}
+	if c.Fwd == "xreal" || c.Fwd == "both" {
+		h.Set("X-Real-Ip", v)
+	}
 }
 
 var c11TheWorld *vWorld
@@ -165,8 +197,8 @@ func c11Check(c c11Case) *vResult {
 	}
 	b0 := c.Blocks[c.Peer.Block]
 	boundary := c.Peer.Kind == "network" || c.Peer.Kind == "broadcast" || c.Peer.Kind == "below" || c.Peer.Kind == "above"
-	res.Desc = vJoin(fmt.Sprint(b0.Prefix), c.Peer.Kind, fmt.Sprint(len(c.Blocks)), c.Via, fmt.Sprint(inside))
-	res.NonTrivial = boundary || len(c.Blocks) > 1
+	res.Desc = vJoin(fmt.Sprint(b0.Prefix), c.Peer.Kind, fmt.Sprint(len(c.Blocks)), c.Via, fmt.Sprint(inside), c.Fwd, fmt.Sprint(c.FwdInside))
+	res.NonTrivial = boundary || len(c.Blocks) > 1 || c.Fwd != ""
 	res.label("peer:"+c.Peer.Kind, "via:"+c.Via, fmt.Sprintf("inside:%v", inside))
 
 	cert := w.roleCert(vUserRobot, cidrs, vKey("p256", "c11client").Public(), 0)
@@ -193,6 +225,7 @@ func c11Check(c c11Case) *vResult {
 		dur := "1h"
 		req := vCertgenRequest("POST", "/certgen/"+vUserRobot, vSSHAuthorizedKey(vKey("p256", "c11user").Public()), &dur, nil)
 		req.RemoteAddr = addr
+		c11Forwarded(c, req.Header)
 		if !w.vAttachTLS(req, cert) {
 			res.violate("chain", "minted certificate does not verify against the server's client CAs")
 			return res
@@ -213,6 +246,7 @@ func c11Check(c c11Case) *vResult {
 		form.Add("requestor_netblock", "0.0.0.0/0")
 		req := vFormRequest("POST", refreshRoleRequestingCertPath, form)
 		req.RemoteAddr = addr
+		c11Forwarded(c, req.Header)
 		if !w.vAttachTLS(req, cert) {
 			res.violate("chain", "minted certificate does not verify against the server's client CAs")
 			return res
@@ -264,7 +298,7 @@ func c11Check(c c11Case) *vResult {
 
 func TestVerifC11Netblocks(t *testing.T) {
 	vRunRapid(t,
-		"rapid: 1-4 IPv4 netblocks with prefix 0-32 (base random, masked) x peer class relative to a chosen block (network, broadcast, one below, one above, inside, outside=one prefix bit flipped, random, IPv6, IPv4-mapped inside/outside) x path (refresh endpoint, certificate endpoint, library); non-trivial = peer within +/-1 of a block boundary or a multi-block list; distinct = (prefix, peer class, list length, path, inside)",
+		"rapid: 1-4 IPv4 netblocks with prefix 0-32 (base random, masked) x peer class relative to a chosen block (network, broadcast, one below, one above, inside, outside=one prefix bit flipped, random, IPv6, IPv4-mapped inside/outside) x path (refresh endpoint, certificate endpoint, library); x optional X-Forwarded-For / X-Real-Ip header naming an address inside or outside (incl. TCP peer 127.0.0.1); non-trivial = peer within +/-1 of a block boundary, a multi-block list or a forwarded header; distinct = (prefix, peer class, list length, path, inside, header)",
 		c11Gen, c11Check)
 }
 
